@@ -7,6 +7,7 @@ from . import validate_common as vc
 from . import array_common as ac
 from . import more_types as mt
 from . import dyn_range as dr
+from . import dyn_enum as de
 
 
 def run(rep, tier, seed):
@@ -15,12 +16,13 @@ def run(rep, tier, seed):
     mt.run_for(rep, tier, seed, "C01")
     ac.run_for(rep, tier, seed)
     dr.run_for(rep, tier, seed)
+    de.run_for(rep, tier, seed)
     rep.rule = rule + ("; This / self, Module, Date, Datetime, Time, UUID, File, Directory, Expression: every (configuration, "
                        "value, route) state of MoreTypesMC on real values (temporary files, paths, dates, ...), judged against "
                        "Validate / Assign / InDomain of MoreTypes.tla; Array / CArray / ArrayOrNone: every (dtype, shape "
                        "pattern, casting rule, value) state of ArrayTraitMC instantiated with numpy values, judged by TLC "
                        "against Py / InDomain / Default of ArrayTrait.tla; Range traits whose bounds name other attributes: histories of bound "
-                       "changes, assignments and reads judged against DynRange.tla")
+                       "changes, assignments and reads judged against DynRange.tla; Enum(values='name'): the same against DynEnum.tla")
 
 
 def replay(rep, path):
